@@ -17,7 +17,8 @@ LEVEL = "model_checking"
 META = {
     "technique": "TLA+ parity law (Amplitude.tla: PartnerChains, FlippedNodes, ProdEta) evaluated by TLC on every pair of chains sharing a "
     "coefficient in real HelicityModels over synthetic reactions with 1-3 parity-constrained nodes and independent eta "
-    "per node (plus real reactions), under all naming flags that change coefficient sharing",
+    "per node (plus real reactions), under all naming flags that change coefficient sharing; every other model is the second "
+    "formulate() of its builder after one under the opposite parent-helicity flag (history independence of the law)",
     "text": "The sign relation between chains that share a coefficient is a discrete law over pairs of chains; the specification "
     "derives, from the abstract transitions, which nodes are reversed and the required product of parity factors, and "
     "TLC checks every pair. The suite only counts parameters for one constrained node; here eta is varied independently "
